@@ -15,6 +15,12 @@ ops:
                                              tables: d = [go-pttbbs:types] of the shipped docker ini (paths rewritten
                                              to <repo>/types/), m = a minimal ini with the two table keys.  The paths
                                              are resolved by the MODELLED config() over Gen.Big5.configReads.
+  reset                                      a fresh process: both package-level maps empty, no ini, default paths
+  init <var|ini> <specB> <specU>             types.InitConfig after setting the two table paths (var: the variables,
+                                             ini: an ini file read through viper). spec: Rb / Ru = the repository's
+                                             b2u / u2b file, X = no such file, D = a directory, S<hex> = a file with
+                                             this content.  Answer: ok | err | PANIC   (MODELLED initBig5 state machine)
+  hb2u <hex> | hu2b <hex> | hrt <hex>        the conversions with the maps as the history left them
 -/
 
 structure Tables where
@@ -45,6 +51,37 @@ structure St where
   dflt : Tables
   cfgD : Option Tables
   cfgM : Option Tables
+  cb : Bytes                 -- content of the repository's b2u file
+  cu : Bytes
+  hist : Loader := { b2u := ∅, u2b := ∅ }
+  hVars : Env := []
+  hIni : Env := []
+
+/-- the file system of a history: a path IS its spec. `none` (outer): not a spec. -/
+def specContent (st : St) (spec : String) : Option (Option Bytes) :=
+  if spec = "Rb" then some (some st.cb)
+  else if spec = "Ru" then some (some st.cu)
+  else if spec = "X" ∨ spec = "D" then some none
+  else if spec.startsWith "S" then (parseHex (spec.drop 1).toString).map some
+  else none
+
+def histInit (st : St) (via b u : String) : St × String :=
+  match specContent st b, specContent st u with
+  | some _, some _ =>
+    let pre := Gen.Big5.configPrefix ++ "."
+    let ini := if via = "ini" then [(pre ++ "big5_to_utf8", b), (pre ++ "utf8_to_big5", u)] else st.hIni
+    let vars0 : Env := if via = "ini" then
+        (if st.hVars.isEmpty then [("BIG5_TO_UTF8", Gen.Big5.b2uPath), ("UTF8_TO_BIG5", Gen.Big5.u2bPath)] else st.hVars)
+      else [("BIG5_TO_UTF8", b), ("UTF8_TO_BIG5", u)]
+    let env := runConfig Gen.Big5.configReads ini vars0           -- config()
+    let pb := cfgVar env "BIG5_TO_UTF8"
+    let pu := cfgVar env "UTF8_TO_BIG5"
+    let fs : FS := fun p => (specContent st p).join
+    let st' := { st with hIni := ini, hVars := [("BIG5_TO_UTF8", pb), ("UTF8_TO_BIG5", pu)] }
+    match initBig5 fs pb pu st.hist with                          -- postConfig(): setTimeLocation, initBig5
+    | .ok (l, e) => ({ st' with hist := l }, if e then "err" else "ok")
+    | .error f => (st', toString f)
+  | _, _ => (st, "bad-op")
 
 def convOp (t : Tables) (op h : String) : String :=
   match parseHex h with
@@ -56,7 +93,20 @@ def convOp (t : Tables) (op h : String) : String :=
 
 def stepC17 (st : St) (ws : List String) : St × String :=
   let t := st.dflt
+  match ws with
+  | ["reset"] => ({ st with hist := { b2u := ∅, u2b := ∅ }, hVars := [], hIni := [] }, "ok")
+  | ["init", via, b, u] => if via = "var" ∨ via = "ini" then histInit st via b u else (st, "bad-op")
+  | _ =>
   let out := match ws with
+    | ["hb2u", h] => match parseHex h with
+        | some s => showM toHex (big5ToUtf8 (tableOf st.hist.b2u) s)
+        | none => "bad-op"
+    | ["hu2b", h] => match parseHex h with
+        | some s => showM toHex (utf8ToBig5 (tableOf st.hist.u2b) s)
+        | none => "bad-op"
+    | ["hrt", h] => match parseHex h with
+        | some s => showM toHex (big5ToUtf8 (tableOf st.hist.b2u) s >>= utf8ToBig5 (tableOf st.hist.u2b))
+        | none => "bad-op"
     | ["cfg", v, op, h] =>
         if op ≠ "b2u" ∧ op ≠ "u2b" then "bad-op" else
         match parseHex h with
@@ -120,7 +170,7 @@ def main : IO Unit := do
   let cb ← readBytes (repo ++ "/" ++ Gen.Big5.b2uPath)
   let cu ← readBytes (repo ++ "/" ++ Gen.Big5.u2bPath)
   let t := mkTables cb cu
-  let st : St := { dflt := t, cfgD := ← loadCfg repo t "d", cfgM := ← loadCfg repo t "m" }
+  let st : St := { dflt := t, cfgD := ← loadCfg repo t "d", cfgM := ← loadCfg repo t "m", cb := cb, cu := cu }
   let inp ← IO.getStdin
   let out ← IO.getStdout
   runLoop { init := st, step := stepC17 } inp out st
